@@ -40,6 +40,9 @@ CodeGoOnChainOut(hh, E) == E + LGP <= hh
 CodeGoOnChainIn(hh, E) == E <= hh + CCB
 \* channelmonitor.rs OnchainEventEntry::confirmation_threshold / has_reached_confirmation_threshold
 CodeBuried(hh, hc) == hh >= hc + ARD - 1
+\* channel.rs do_best_block_updated: an HTLC still in the holding cell with `cltv_expiry <= height +
+\* LATENCY_GRACE_PERIOD_BLOCKS` is failed back instead of being forwarded later
+CodeHoldingCellTimeout(hh, Ed) == Ed <= hh + LGP
 \* channelmonitor.rs block_confirmed, "Fail back HTLCs on backwards channels if they expire within
 \* LATENCY_GRACE_PERIOD_BLOCKS blocks and the channel is closed"
 CodeFailBackClosed(hh, Eu) == ~(Eu > hh + LGP)
@@ -53,7 +56,7 @@ Scenario(r, um, dm) ==
 Init ==
   /\ h = H0
   /\ role \in {"final", "fwd"} /\ upMode \in {"honest", "silent"}
-  /\ dnMode \in {"offchain", "silent", "early", "onchain"}
+  /\ dnMode \in {"offchain", "silent", "early", "onchain", "cell"}
   /\ Scenario(role, upMode, dnMode)
   /\ d \in Deltas /\ (role = "final" => d = MIND)
   /\ eu = 0 /\ ed = 0 /\ dl = 0 /\ up = "none" /\ upH = -1 /\ pre = FALSE /\ preLate = FALSE
@@ -74,8 +77,13 @@ MOffer ==
 
 MShow == role = "final" /\ up = "offered" /\ CodeFinalAccept(h, eu) /\ Show(CodeClaimDeadline(eu))
 MRefuseFinal == role = "final" /\ up = "offered" /\ ~CodeFinalAccept(h, eu) /\ FailUp
-MForward == role = "fwd" /\ up = "offered" /\ CodeFwdAccept(h, eu, ed, d) /\ Forward(ed)
-MRefuseForward == role = "fwd" /\ up = "offered" /\ ~CodeFwdAccept(h, eu, ed, d) /\ FailUp
+MForward == role = "fwd" /\ up = "offered" /\ dn = "none" /\ dnMode # "cell" /\ CodeFwdAccept(h, eu, ed, d) /\ Forward(ed)
+MRefuseForward == role = "fwd" /\ up = "offered" /\ dn = "none" /\ ~CodeFwdAccept(h, eu, ed, d) /\ FailUp
+\* the downstream peer owes B a revoke_and_ack: the accepted forward waits in the holding cell, is
+\* failed back when it gets too close to its expiry, and goes out when the peer finally answers
+MQueue == dnMode = "cell" /\ CodeFwdAccept(h, eu, ed, d) /\ Queue
+EnCellTimeout == up = "offered" /\ dn = "cell" /\ CodeHoldingCellTimeout(h, ed)
+MCellTimeout == EnCellTimeout /\ FailUp
 
 \* ---- what B does by itself when a block is connected / a message arrives (all immediate)
 EnAutoFail == role = "final" /\ up = "held" /\ ~pre /\ CodeAutoFail(h, eu)
@@ -86,7 +94,7 @@ EnFailBuried == role = "fwd" /\ up = "held" /\ ~pre /\ dn = "gone" /\ CodeBuried
 EnFailDn == role = "fwd" /\ up = "held" /\ dn = "failed"
 EnFailClosed == role = "fwd" /\ up = "held" /\ ~pre /\ cD # "open" /\ dn \in {"pending", "gone"}
                 /\ CodeFailBackClosed(h, eu)
-Urgent == up = "offered" \/ EnAutoFail \/ EnFulfilUp \/ EnGoDn \/ EnGoUp \/ EnFailBuried \/ EnFailDn \/ EnFailClosed
+Urgent == (up = "offered" /\ dn # "cell") \/ EnCellTimeout \/ EnAutoFail \/ EnFulfilUp \/ EnGoDn \/ EnGoUp \/ EnFailBuried \/ EnFailDn \/ EnFailClosed
 
 MAutoFail == EnAutoFail /\ FailUp
 MFulfilUp == EnFulfilUp /\ FulfilUp
@@ -101,7 +109,13 @@ MFailUpClosed == EnFailClosed /\ ~EnFailBuried /\ FailUp
 MClaim == ~Urgent /\ role = "final" /\ up = "held" /\ ~pre /\ Claim(TRUE)
 MClaimLate == ~Urgent /\ role = "final" /\ up = "failed" /\ dl > 0 /\ ~pre /\ xH = -1 /\ h <= dl + 1 /\ Claim(FALSE)
 
+MCellRelease == ~Urgent /\ dn = "cell" /\ Forward(ed)
+MCellReleaseLate == ~Urgent /\ dnMode = "cell" /\ up = "failed" /\ dn = "cell" /\ xH = -1 /\ h <= ed /\ Probe
+
 LastMoment == h = H0 \/ h >= ed + LGP - 2
+CHoldsNow == CodeFinalAccept(h, ed)
+MDnFulfilCell == ~Urgent /\ dnMode = "cell" /\ CHoldsNow /\ DnFulfil
+MDnFailCell == ~Urgent /\ dnMode = "cell" /\ ~CHoldsNow /\ DnFail
 MDnFulfil == ~Urgent /\ dnMode = "offchain" /\ CHolds /\ (upMode = "honest" \/ LastMoment) /\ DnFulfil
 MDnFail == ~Urgent /\ dnMode = "offchain" /\ (CHolds \/ h = H0) /\ upMode = "honest" /\ DnFail
 \* an honest C that does not hold the HTLC fails it at once
@@ -109,12 +123,16 @@ Remote == ed - H0 > 4 * MIND     \* far-far-away probes: only the acceptance mat
 CMustAnswer == dnMode = "offchain" /\ dn = "pending" /\ (~CHolds \/ Remote) /\ h = H0
 
 Finished == /\ up \in {"fulfilled", "failed"} /\ (Settled \/ lost \/ suC = -2) /\ dn # "pending"
+            \* a few more blocks after a holding-cell timeout, for the peer's late answer
+            /\ ~(dnMode = "cell" /\ up = "failed" /\ dn = "cell" /\ xH = -1 /\ h <= ed)
             \* one more block after an automatic fail-back, for a claim attempt past the deadline
             /\ ~(role = "final" /\ up = "failed" /\ dl > 0 /\ xH = -1 /\ h <= dl)
 
 Max(a, b) == IF a >= b THEN a ELSE b
 MNewBlock ==
   /\ ~Urgent /\ ~CMustAnswer /\ ~Finished /\ up # "none"
+  /\ ~(dnMode = "cell" /\ dn = "pending")            \* after the release C answers at once
+  /\ ~(dnMode = "cell" /\ up = "failed" /\ h >= ed)
   /\ \E cf \in SUBSET {"commitD", "timeoutD", "claimD", "commitU", "successU", "timeoutU"} :
        LET n == h + 1
            rT2 == Max(toB, cDc)
@@ -139,6 +157,7 @@ MNewBlock ==
 Next ==
   \/ MOffer \/ MShow \/ MRefuseFinal \/ MForward \/ MRefuseForward
   \/ MAutoFail \/ MFulfilUp \/ MGoOnChainDn \/ MGoOnChainUp \/ MFailUpBuried \/ MFailUpDn \/ MFailUpClosed
+  \/ MQueue \/ MCellTimeout \/ MCellRelease \/ MCellReleaseLate \/ MDnFulfilCell \/ MDnFailCell
   \/ MClaim \/ MClaimLate \/ MDnFulfil \/ MDnFail \/ MNewBlock
 
 Spec == Init /\ [][Next]_vars
